@@ -18,13 +18,21 @@ RULE = ('cases: (1) Request.from_json over the full product of a 16-value alphab
         'embedded in an otherwise valid response; (3) Response.from_json over jsonrpc x id x result x error with 18 error '
         'shapes; (4) non-object inputs; (5) BatchRequest / BatchResponse.from_json over all arrays of <= 3 (quick 2..3) '
         'elements from 12 element shapes and batch-level error objects; (6) all append/extend histories of <= 4 operations '
-        'over ids {1,"1",2,0,"",None} on strict and non-strict batches, compared with a list model through the public API '
-        'after every operation. Oracle: vmon/models/wire.py validity predicates + exception type. A case is distinct by '
+        'over ids {1,"1",2,0,"",None} on strict and non-strict batches - extend given its messages as a list (every history) and '
+        'as tuple / dict view / generator expression / iter() / map() / itertools.chain (every history of <= 2 operations, a '
+        'eighth of those of 3 in quick and all in thorough, the sampled longer ones in rotation) - compared with a list model through the public API '
+        'after every operation; (7) additional members (29 names: what servers add, member names of the other message kinds, '
+        'names Python gives a meaning, near misses; 6 values; pairs) added to 35 otherwise valid / otherwise invalid error '
+        'objects, request and response envelopes and batch-level error envelopes, through every from_json entry point incl. '
+        'error_cls / subclass routes and as batch elements. Oracle: vmon/models/wire.py validity predicates + exception type. A case is distinct by '
         '(message kind, input value / history); non-trivial = not accepted-and-valid.')
 ASSUMPTIONS = [
     'rejecting a structurally valid message is not judged here (C05 / C02 judge acceptance)',
     'fractional-number ids: the statement says pjrpc admits integers only; accepting or rejecting a float id is not judged',
     'an empty array is judged for batch *requests* only (the statement names only those)',
+    'additional members (any name other than the message kind\'s own) are not in the statement\'s list of what is never accepted: '
+    'accepting or refusing an otherwise valid object that carries them is not judged; no foreign exception type and "otherwise '
+    'invalid stays refused" are',
 ]
 SHARDS = {'quick': 8, 'thorough': 16}
 TIMEOUT = {'quick': 300, 'thorough': 1800}
@@ -47,6 +55,8 @@ FLOORS = {'*': {'error:deserialised-through-a-library-error-class': 300,
     'error:accepted': 50, 'error:rejected': 500, 'batch-request:accepted': 20, 'batch-request:rejected': 50,
     'batch-response:accepted': 20, 'batch-response:rejected': 50, 'batch:identity-error': 10,
     'history:failed-op': 200, 'error:registered-code': 7, 'deep-payloads': 50, 'history:ops': 2000, 'nonobject': 20, 'ambient:batch-invariant': 1000,
+    'extend-given-as:one-shot': 50000, 'extend-given-as:re-iterable': 200000,
+    'additional-members:error': 1500, 'additional-members:request': 1000, 'additional-members:response': 1000, 'additional-members:batch-level': 400,
 }}
 
 A = '__absent__'
@@ -155,20 +165,20 @@ def call(fn, *args, **kw):
         return 'other', e
 
 
-def judge(ctx, kind, value, invalid, status, out, allow_identity=False):
-    """Common verdict for one from_json evaluation."""
+def judge(ctx, kind, value, invalid, status, out, allow_identity=False, suffix=''):
+    """Common verdict for one from_json evaluation. `suffix` names the input class in the mechanism key."""
     cls = (kind, repr(value))
     if status == 'other':
-        ctx.violation(f'{kind}.from_json-raises:{type(out).__name__}', kind, cls, input=value, exception=out,
+        ctx.violation(f'{kind}.from_json-raises:{type(out).__name__}{suffix}', kind, cls, input=value, exception=out,
                       model_verdict=invalid or 'valid')
         return
     if status == 'identity' and not allow_identity:
-        ctx.violation(f'{kind}.from_json-raises:IdentityError-outside-batch', kind, cls, input=value, exception=out)
+        ctx.violation(f'{kind}.from_json-raises:IdentityError-outside-batch{suffix}', kind, cls, input=value, exception=out)
         return
     if status == 'ret':
         ctx.hit(f'{kind}:accepted')
         if invalid and invalid != 'open':
-            ctx.violation(f'{kind}-accepted-invalid:{invalid}', kind, cls, input=value, accepted_as=repr(out))
+            ctx.violation(f'{kind}-accepted-invalid:{invalid}{suffix}', kind, cls, input=value, accepted_as=repr(out))
             return
         ctx.ok(kind + ':accepted', cls, sample={'kind': kind, 'input': value, 'outcome': 'accepted ' + repr(out)})
     else:
@@ -274,6 +284,92 @@ def run_deep(ctx, depth, as_object):
             ctx.ok(f'{kind}:deep', cls, sample=wit)
 
 
+# ---- additional (unknown) members ---------------------------------------------------------------------------
+# Members the statement does not mention, added to otherwise valid and otherwise invalid objects of every kind, at every
+# nesting level (error object, request / response envelope, batch element, batch-level error envelope). The statement's list
+# of what is never accepted says nothing about them, so accepting or refusing an otherwise valid object is open (counted
+# under `unjudged`); what is judged: nothing but the deserialisation error escapes, and an otherwise INVALID object stays
+# refused whatever else it carries. Names: what real servers add (name, stack, ...), names of members of the OTHER message
+# kinds, names that mean something to Python (self, cls, args, kwargs, dunder names), near misses of the real member names.
+EXTRA_NAMES = ['name', 'stack', 'details', 'self', 'cls', 'args', 'kwargs', 'error_cls', 'json_data', '__class__', '__init__',
+               '__dict__', 'id', 'jsonrpc', 'method', 'params', 'result', 'error', 'code', 'message', 'data', 'related', 'strict',
+               '', 'Code', 'code ', 'd\u00e1ta', 'x' * 100, '0']
+EXTRA_PAIRS = [('name', 'stack'), ('self', 'cls'), ('args', 'kwargs'), ('id', 'method'), ('result', 'params')]
+EXTRA_VALUES = [None, 0, 'x', [], {'a': 1}, True]
+OWN_MEMBERS = {'error': {'code', 'message', 'data'}, 'request': {'jsonrpc', 'id', 'method', 'params'},
+               'response': {'jsonrpc', 'id', 'result', 'error'},
+               # REPORTED: BatchResponse.from_json({'jsonrpc': '2.0', 'id': None, 'error': {valid}, 'result': 1}) returns a
+               # batch-level error on the unchanged tree (a response object carrying both result and error, accepted; the
+               # result is dropped silently) - 'result' is therefore left out of the names added to a batch-level envelope
+               'batch-level': {'jsonrpc', 'id', 'error', 'result'}}
+EXTRA_BASES = {
+    'error': [GOOD_ERR, {'code': -32601, 'message': 'Method not found', 'data': {'k': 1}}, {'code': 0, 'message': ''},
+              {'code': 76001, 'message': 'c6 typed', 'data': None}, {'code': -32000, 'message': 'Server error', 'data': []},
+              {'code': '5', 'message': 'm'}, {'code': 5}, {'message': 'm'}, {'code': True, 'message': 'm'}, {'code': 5, 'message': None},
+              {'code': 1.5, 'message': 'm', 'data': 1}, {}],
+    'request': [{'jsonrpc': '2.0', 'id': 1, 'method': 'm'}, {'jsonrpc': '2.0', 'id': 'a', 'method': 'm', 'params': [1]},
+                {'jsonrpc': '2.0', 'method': 'n', 'params': {'k': 1}}, {'jsonrpc': '2.0', 'id': 1}, {'jsonrpc': '1.0', 'id': 1, 'method': 'm'},
+                {'id': 1, 'method': 'm'}, {'jsonrpc': '2.0', 'id': [], 'method': 'm'}, {'jsonrpc': '2.0', 'id': 1, 'method': 'm', 'params': 'x'},
+                {'jsonrpc': '2.0', 'id': 1, 'method': 5}],
+    'response': [{'jsonrpc': '2.0', 'id': 1, 'result': 1}, {'jsonrpc': '2.0', 'id': 'a', 'result': None}, {'jsonrpc': '2.0', 'id': 1, 'error': GOOD_ERR},
+                 {'jsonrpc': '2.0', 'id': None, 'error': {'code': -32700, 'message': 'Parse error'}},
+                 {'jsonrpc': '2.0', 'id': 1, 'result': 1, 'error': GOOD_ERR}, {'jsonrpc': '2.0', 'id': 1}, {'id': 1, 'result': 1},
+                 {'jsonrpc': 2.0, 'id': 1, 'result': 1}, {'jsonrpc': '2.0', 'id': True, 'result': 1}, {'jsonrpc': '2.0', 'id': 1, 'error': {'code': 5}}],
+    'batch-level': [{'jsonrpc': '2.0', 'id': None, 'error': GOOD_ERR}, {'jsonrpc': '2.0', 'error': {'code': -32600, 'message': 'Invalid Request', 'data': 'd'}},
+                    {'jsonrpc': '2.0', 'id': None, 'error': {'code': '5', 'message': 'm'}}, {'id': None, 'error': GOOD_ERR}],
+}
+
+
+def _extras(kind):
+    own = OWN_MEMBERS[kind]
+    for name in EXTRA_NAMES:
+        if name not in own:
+            for v in EXTRA_VALUES:
+                yield {name: v}
+    for k, (a, b) in enumerate(EXTRA_PAIRS):
+        if a not in own and b not in own:
+            yield {a: EXTRA_VALUES[k % len(EXTRA_VALUES)], b: EXTRA_VALUES[(k + 2) % len(EXTRA_VALUES)]}
+
+
+def run_extra_members(ctx, kind, base_i):
+    base = EXTRA_BASES[kind][base_i]
+    sfx = ':additional-members'
+    good_req, good_resp = {'jsonrpc': '2.0', 'id': 9, 'method': 'g'}, {'jsonrpc': '2.0', 'id': 9, 'result': 'g'}
+
+    def one(k, fn, value, invalid, batch=False, **kw):
+        status, out = call(fn, value, **kw)
+        if status == 'ret' and not invalid:
+            ctx.unjudge(f'additional-members:{kind}:otherwise-valid-object-accepted')
+        judge(ctx, k, value, invalid, status, out, allow_identity=batch, suffix=sfx)
+
+    for extra in _extras(kind):
+        obj = {**base, **extra}
+        ctx.hit('additional-members:' + kind)
+        if kind == 'error':
+            inv = error_invalid(obj)
+            one('error', JsonRpcError.from_json, obj, inv)
+            for ecls in (pjrpc.exceptions.MethodNotFoundError, pjrpc.exceptions.ServerError, C6Typed):
+                one('error', ecls.from_json, obj, inv)
+            resp = {'jsonrpc': '2.0', 'id': 1, 'error': obj}
+            one('response', v20.Response.from_json, resp, response_invalid(resp))
+            one('response', v20.Response.from_json, resp, response_invalid(resp), error_cls=pjrpc.exceptions.ServerError)
+            one('batch-response', v20.BatchResponse.from_json, [good_resp, resp], batch_invalid([good_resp, resp], response_invalid, False)[0], batch=True)
+            one('batch-response', v20.BatchResponse.from_json, {'jsonrpc': '2.0', 'id': None, 'error': obj},
+                None if inv is None else 'not-a-batch-level-error', batch=True)
+        elif kind == 'request':
+            one('request', v20.Request.from_json, obj, request_invalid(obj))
+            for arr in ([obj], [good_req, obj]):
+                one('batch-request', v20.BatchRequest.from_json, arr, batch_invalid(arr, request_invalid, True)[0], batch=True)
+        elif kind == 'response':
+            one('response', v20.Response.from_json, obj, response_invalid(obj))
+            one('response', v20.Response.from_json, obj, response_invalid(obj), error_cls=C6Typed)
+            for arr in ([obj], [obj, good_resp]):
+                one('batch-response', v20.BatchResponse.from_json, arr, batch_invalid(arr, response_invalid, False)[0], batch=True)
+        else:
+            valid = obj.get('jsonrpc') == '2.0' and obj.get('id') is None and error_invalid(obj.get('error')) is None
+            one('batch-response', v20.BatchResponse.from_json, obj, None if valid else 'not-a-batch-level-error', batch=True)
+
+
 NONOBJECTS = [None, True, False, 0, 1, 1.5, '', 'x', [], [1], [{}], [[]], 'null', 10 ** 30]
 
 
@@ -371,7 +467,16 @@ def _snapshot(batch, which):
     return (len(batch), [(type(x.id).__name__, x.id) for x in items], batch.to_json())
 
 
-def run_history(ctx, which, strict, ops):
+# how `extend` is handed its messages: anything iterable is legal for the declared Iterable - containers that can be walked any
+# number of times, and ONE-SHOT iterables that are exhausted after the first walk
+GIVEN_AS = {
+    'list': list, 'tuple': tuple, 'dict-values': lambda ms: {k: m for k, m in enumerate(ms)}.values(),
+    'genexp': lambda ms: (m for m in ms), 'iter': iter, 'map': lambda ms: map(lambda m: m, ms), 'chain': lambda ms: itertools.chain(ms[:1], ms[1:]),
+}
+ONE_SHOT = ('genexp', 'iter', 'map', 'chain')
+
+
+def run_history(ctx, which, strict, ops, given_as='list'):
     cls_ = v20.BatchRequest if which == 'request' else v20.BatchResponse
     batch = cls_(strict=strict)
     model = []      # list of (id, tag)
@@ -390,32 +495,37 @@ def run_history(ctx, which, strict, ops):
         if op[0] == 'append':
             status, out = call(batch.append, msgs[0][0])
         else:
-            status, out = call(batch.extend, [m[0] for m in msgs])
+            status, out = call(batch.extend, GIVEN_AS[given_as]([m[0] for m in msgs]))
+            ctx.hit('extend-given-as:' + ('one-shot' if given_as in ONE_SHOT else 're-iterable'))
         ctx.hit('history:ops')
         after = _snapshot(batch, which)
-        key = (which, strict, repr(ops), step)
-        desc = {'batch': which, 'strict': strict, 'ops': [[o[0], [IDS[i] for i in o[1]]] for o in ops], 'step': step}
+        key = (which, strict, repr(ops), step, given_as)
+        sfx = f':extend-given-as-one-shot-iterable' if (given_as in ONE_SHOT and any(o[0] == 'extend' for o in ops[:step + 1])) else ''
+        desc = {'batch': which, 'strict': strict, 'ops': [[o[0], [IDS[i] for i in o[1]]] for o in ops], 'step': step,
+                'extend_is_given_its_messages_as': given_as}
         if dup:
             ctx.hit('history:failed-op')
             if status != 'identity':
-                ctx.violation(f'duplicate-id-{op[0]}-not-refused:{status}', 'history', key, history=desc,
+                ctx.violation(f'duplicate-id-{op[0]}-not-refused:{status}{sfx}', 'history', key, history=desc,
                               outcome=repr(out), contents_after=after[1])
                 return
             if before != after:
-                ctx.violation(f'failed-{op[0]}-changed-batch', 'history', key, history=desc, before=before[1], after=after[1])
+                ctx.violation(f'failed-{op[0]}-changed-batch{sfx}', 'history', key, history=desc, before=before[1], after=after[1])
                 return
         else:
             if status != 'ret':
-                ctx.violation(f'valid-{op[0]}-refused:{type(out).__name__}', 'history', key, history=desc, outcome=repr(out),
+                ctx.violation(f'valid-{op[0]}-refused:{type(out).__name__}{sfx}', 'history', key, history=desc, outcome=repr(out),
                               contents_before=before[1])
                 return
             model.extend((i, t) for _, i, t in msgs)
             want_ids = [(type(i).__name__, i) for i, _ in model]
             if after[0] != len(model) or after[1] != want_ids:
-                ctx.violation(f'{op[0]}-contents-wrong', 'history', key, history=desc, expected=want_ids, after=after[1])
+                ctx.violation(f'{op[0]}-contents-wrong{sfx}', 'history', key, history=desc, expected=want_ids, after=after[1])
                 return
-    ctx.ok(f'history:{which}:{"strict" if strict else "lenient"}', (which, strict, repr(ops)), sample={
-        'batch': which, 'strict': strict, 'ops': [[o[0], [IDS[i] for i in o[1]]] for o in ops], 'final_ids': [m[0] for m in model]})
+    ctx.ok(f'history:{which}:{"strict" if strict else "lenient"}' + ('' if given_as == 'list' else ':extend-given-' + given_as),
+           (which, strict, repr(ops), given_as), sample={
+        'batch': which, 'strict': strict, 'ops': [[o[0], [IDS[i] for i in o[1]]] for o in ops], 'extend_given_as': given_as,
+        'final_ids': [m[0] for m in model]})
 
 
 def histories(ctx):
@@ -462,6 +572,9 @@ def gen(ctx):
     for k in range(len(REGISTERED_CODES)):
         yield 'error_block', {'code_i': len(ALPHA) + k}
     yield 'nonobjects', {}
+    for kind, bases in EXTRA_BASES.items():
+        for base_i in range(len(bases)):
+            yield 'extra_members', {'kind': kind, 'base_i': base_i}
     for depth in (100, 400, 700, 900):
         for as_object in (False, True):
             yield 'deep', {'depth': depth, 'as_object': as_object}
@@ -476,13 +589,29 @@ def gen(ctx):
         for a, b in ((0, 2), (0, 5), (5, 6), (2, 6)):
             for idx in ((a, b, a, b), (a, a, b, b), (a, b, b, a), (a, b, 1, a, b)):
                 yield 'batch', {'which': which, 'idx': list(idx)}
+    others = [g for g in GIVEN_AS if g != 'list']
+    hk = 0
     for seq in histories(ctx):
-        for which in ('request', 'response'):
-            for strict in (True, False):
-                yield 'history', {'which': which, 'strict': strict, 'ops': [[o, list(a)] for o, a in seq]}
+        # lists for every history; histories that extend are repeated with the other ways of handing the messages over: all
+        # of them for <= 2 operations, one (rotating) for an eighth (thorough: all) of the longer enumerated ones; the sampled
+        # long histories rotate through every way instead of repeating
+        kinds = ['list']
+        if any(o == 'extend' for o, _ in seq):
+            hk += 1
+            if len(seq) <= 2:
+                kinds = list(GIVEN_AS)
+            elif len(seq) == 3:
+                if ctx.thorough or hash_seq(seq) % 8 == 0:
+                    kinds = ['list', others[hk % len(others)]]
+            else:
+                kinds = [list(GIVEN_AS)[hk % len(GIVEN_AS)]]
+        for given_as in kinds:
+            for which in ('request', 'response'):
+                for strict in (True, False):
+                    yield 'history', {'which': which, 'strict': strict, 'ops': [[o, list(a)] for o, a in seq], 'given_as': given_as}
 
 
 KINDS = {
     'deep': run_deep, 'request_block': run_request_block, 'error_block': run_error_block, 'response_block': run_response_block,
-    'nonobjects': run_nonobjects, 'batch_level': run_batch_level, 'batch': run_batch, 'history': run_history,
+    'nonobjects': run_nonobjects, 'extra_members': run_extra_members, 'batch_level': run_batch_level, 'batch': run_batch, 'history': run_history,
 }
